@@ -142,7 +142,11 @@ func genMode(t *testing.T, p *props.Prop) {
 			fmt.Fprintf(os.Stderr, "@@RUN %d %d\n", i, rs)
 		}
 		tape := simrt.NewTape(rs, forced)
-		res := props.Execute(t, p, tape, tier, false)
+		dump := os.Getenv("SIM_DUMPTRACE") != ""
+		res := props.Execute(t, p, tape, tier, dump)
+		if dump {
+			os.WriteFile(fmt.Sprintf("%s.trace.%d", out, i), []byte(strings.Join(res.Trace, "\n")+"\n"), 0o644)
+		}
 		sum.Evaluations++
 		if i < len(enum) {
 			sum.Enumerated++
